@@ -416,11 +416,12 @@ fn func_arg_to_native_expr(node: &FunctionArg) -> Result<Box<Expr>, QueryError> 
 }
 
 fn strip_quotes(ident: &str) -> String {
-    if ident.starts_with('`') || ident.starts_with('"') {
-        ident[1..ident.len() - 1].to_string()
-    } else {
-        ident.to_string()
+    for quote in ['`', '"'] {
+        if ident.len() >= 2 && ident.starts_with(quote) && ident.ends_with(quote) {
+            return ident[1..ident.len() - 1].to_string();
+        }
     }
+    ident.to_string()
 }
 
 fn map_unary_operator(op: &UnaryOperator) -> Result<Func1Type, QueryError> {
